@@ -2,8 +2,8 @@
 # usage: regress_mut.sh [wave1|wave2 ...]   - re-run every kept candidate change against the current checks (scratch worktrees, 3 at a time)
 # logs: /verif/.build/regress/<wave>-<ID>-<mN>.log
 base=/verif/.build/mutout; out=/verif/.build/regress; mkdir -p $out
-declare -A SPEC=( [C01]="C01:2500" [C17]="C17:2500 C01:1500" [C12]="C12:60000 race:C12S:1500" [C13]="race:C13:2500" [C14]="C14:60000" [C16]="C16:3000 C01:2500" [C09]="C09:500" [C06]="C06:12000 C09:450" [C19]="C19:30000" [C20]="C20:14000" [C18]="C18:3000 C18P:200" [C05]="C05:400" )
-waves=${@:-wave1 wave2}
+declare -A SPEC=( [C01]="C01:2500 C17:2500" [C17]="C17:2500 C01:1500" [C12]="C12:60000 race:C12S:1500" [C13]="race:C13:2500" [C14]="C14:60000" [C16]="C16:3000 C01:2500" [C09]="C09:500" [C06]="C06:12000 C09:450" [C19]="C19:30000" [C20]="C20:14000" [C18]="C18:3000 C18P:200" [C05]="C05:1200" )
+waves=${@:-wave1 wave2 wave3 wave4}
 for w in $waves; do for d in $base/$w/C*/m[12]; do
   id=$(basename $(dirname $d)); m=$(basename $d)
   p=$d/patch.diff; [ -f $d/patch.ported.diff ] && p=$d/patch.ported.diff
